@@ -568,6 +568,7 @@ def _generate(loader):
         return data
     real_gs = sample.U.grid_sample
     warp_arms = []
+    warp_flip_arms = []
     try:
         G.round_decimals = round_recorder
         sample.U.grid_sample = grid_sample_recorder
@@ -628,9 +629,28 @@ def _generate(loader):
                         ref = gt.transform_points(ref, axes=own, to_grid=src, to_axes=own, decimals=None)
                         if not trlib.same_tensor(sc.a, ref.a):
                             raise TraceError(f"ImageTransformer sampling coordinates are not target-cube -> transform-cube -> T -> source-cube ({f}, D={D})")
+                        # flip_coords=True: the transform acts on (z, y, x) coordinates; the target lattice is pre-mapped in (x, y, z)
+                        # order, flipped, transformed, flipped back and mapped to the source cube
+                        del coords_calls[:]
+                        itf = trf.ImageTransformer(t, target=tg, source=src, flip_coords=True)
+                        if len(coords_calls) != 1 or coords_calls[0].get("align_corners") is not ac:
+                            raise TraceError("ImageTransformer(flip_coords=True) does not request target.coords(align_corners=transform.align_corners())")
+                        captured.clear()
+                        itf(img)
+                        scf = last(captured["grid"])
+                        reff = tg.transform_points(xc, axes=own, to_grid=gt, to_axes=own, decimals=None)
+                        reff = linalg.homogeneous_transform(a, reff.flip(-1)).flip(-1)
+                        reff = gt.transform_points(reff, axes=own, to_grid=src, to_axes=own, decimals=None)
+                        if not trlib.same_tensor(scf.a, reff.a):
+                            raise TraceError(f"ImageTransformer(flip_coords=True) sampling coordinates are not pre-map -> flip -> T -> flip -> source-cube ({f}, D={D})")
                     finally:
                         st.GENERIC_DISTINCT = False
                     if D == 2:
+                        nmf = f"gen_warp_coords_flip_{f}_2_{'ac' if ac else 'nac'}"
+                        out.append(trlib.emit_match_def(nmf, grid_inputs(tg, "t") + grid_inputs(gt, "g") + grid_inputs(src, "u") + [("a", a), ("x", xc)],
+                                                        [], scf, None,
+                                                        f"ImageTransformer(..., flip_coords=True): normalised coordinates handed to grid_sample, form {f}, flag {ac}"))
+                        warp_flip_arms.append(f"  | {COQF[f]}, {'true' if ac else 'false'} => {nmf} tn ts tc td gn gs gc gd un us uc ud a x")
                         nm = f"gen_warp_coords_{f}_2_{'ac' if ac else 'nac'}"
                         out.append(trlib.emit_match_def(nm, grid_inputs(tg, "t") + grid_inputs(gt, "g") + grid_inputs(src, "u") + [("a", a), ("x", xc)],
                                                         [], sc, None,
@@ -649,6 +669,9 @@ def _generate(loader):
     out.append("Definition gen_warp_coords2 (f : form) (ac : bool) (tn ts tc : list K) (td : list (list K)) (gn gs gc : list K) (gd : list (list K))\n"
                "    (un us uc : list K) (ud a : list (list K)) (x : list K) : list K :=\n  match f, ac with\n" +
                "\n".join(warp_arms) + "\n  end.\n")
+    out.append("Definition gen_warp_coords_flip2 (f : form) (ac : bool) (tn ts tc : list K) (td : list (list K)) (gn gs gc : list K) (gd : list (list K))\n"
+               "    (un us uc : list K) (ud a : list (list K)) (x : list K) : list K :=\n  match f, ac with\n" +
+               "\n".join(warp_flip_arms) + "\n  end.\n")
     out.append("End Gen.\n")
 
     # ---------------------------------------------------------------- generic configurable transform (spatial/generic.py)
